@@ -17,7 +17,13 @@ an item an expiry time or a tag, so there is no clock anywhere in this file.
    the binding at the end;
  * `ODict.del`: removes the binding of the key, the others keep their order;
  * every call of the Index is one function `ODict → arguments → ODict × Out`,
-   returning the same `Out` values as the model of the call (`Index.*`).
+   returning the same `Out` values as the model of the call (`Index.*`);
+ * `OSpec.items` / `OSpec.values`: the (key, value) pairs / the values in
+   insertion order; `OSpec.eqTo` / `OSpec.neTo`: `==` / `!=` with another mapping
+   given by its pairs — order-sensitive against an ordered mapping, key by key
+   against any other; keys and values compared with Python `==` (`pyEq`);
+   `OSpec.rehandle`: a new handle (pickle round trip, re-opening) is the same
+   dictionary.
 -/
 import DC.Model.Spec
 import DC.Model.Layers
@@ -156,6 +162,83 @@ def update (m : ODict) (E : Externals) (cfg : Cfg) (kvs : List (PyVal × PyVal))
     | (m1, .exc e) => (m1, .exc e)
     | (m1, _) => update m1 E cfg kvs
 
+/-! #### the views and equality
+
+What the value, item and equality calls show is Python-level: the key of a binding as the Python
+object it decodes to (`pyKey`), its value as the Python object a look-up returns (`valueOf`).
+At an entry whose value cannot be read (`Entry.out` gives `default`: only a malformed entry, never one
+the calls of this file create — `OSpec.step_readable` in C12_Views.lean) the look-up of the view
+raises KeyError, which ends the call (persistent.py: `ItemsView.__iter__` evaluates `index[key]`). -/
+
+/-- the Python key of a stored key -/
+def pyKey (E : Externals) (cfg : Cfg) (K : Key) : PyVal := DC.get E cfg.disk K.1 K.2
+
+/-- the Python value of an entry, `none` when it cannot be read -/
+def valueOf (E : Externals) (cfg : Cfg) (e : Entry) : Option PyVal :=
+  match e.out E cfg false false false with
+  | .val v => some v
+  | _ => none
+
+/-- the walk of the views (`for key in d: yield (key, d[key])`): the (key, value) pairs in insertion
+order up to the first entry whose value cannot be read, and whether the walk ended at such an entry
+(the look-up `d[key]` raises KeyError there) -/
+def walk (E : Externals) (cfg : Cfg) : ODict → List (PyVal × PyVal) × Bool
+  | [] => ([], false)
+  | p :: m =>
+    match valueOf E cfg p.2 with
+    | none => ([], true)
+    | some v => ((pyKey E cfg p.1, v) :: (walk E cfg m).1, (walk E cfg m).2)
+
+/-- the (key, value) pairs of the dictionary, in insertion order (up to the first entry whose value
+cannot be read: all of them in a readable dictionary, `OSpec.pairs_readable`) -/
+def pairs (m : ODict) (E : Externals) (cfg : Cfg) : List (PyVal × PyVal) := (walk E cfg m).1
+
+/-- is there an entry whose value cannot be read? (never after a history on an empty dictionary:
+`OSpec.missing_readable`, `OSpec.run_readable`) -/
+def missing (m : ODict) (E : Externals) (cfg : Cfg) : Bool := (walk E cfg m).2
+
+/-- `list(index.items())`: the (key, value) pairs in insertion order; KeyError when the walk meets
+an entry whose value cannot be read -/
+def items (m : ODict) (E : Externals) (cfg : Cfg) : ODict × Out :=
+  (m, if missing m E cfg then .exc "KeyError"
+      else .list ((pairs m E cfg).map (fun kv => .tup [.val kv.1, .val kv.2])))
+
+/-- `list(index.values())`: the values in insertion order; KeyError likewise -/
+def values (m : ODict) (E : Externals) (cfg : Cfg) : ODict × Out :=
+  (m, if missing m E cfg then .exc "KeyError" else .list ((pairs m E cfg).map (fun kv => .val kv.2)))
+
+/-- `dictionary == other`, `other` given as its (key, value) pairs in its own order.  Keys and values
+are compared with Python `==` (`pyEq`), as `OrderedDict.__eq__` does.
+ * `ordered` (the other mapping is an ordered dictionary): the same number of pairs, and the pairs
+   are equal one by one, in order;
+ * otherwise: the same number of pairs, and every pair of the dictionary has its key in `other`
+   with an equal value (the first pair of `other` with an equal key: a mapping has one). -/
+def eqB (m : ODict) (E : Externals) (cfg : Cfg) (ordered : Bool) (other : List (PyVal × PyVal)) : Bool :=
+  m.length == other.length &&
+    if ordered then ((pairs m E cfg).zip other).all (fun p => pyEq p.1.1 p.2.1 && pyEq p.1.2 p.2.2)
+    else (pairs m E cfg).all (fun kv =>
+      match other.find? (fun p => pyEq kv.1 p.1) with
+      | some p => pyEq kv.2 p.2
+      | none => false)
+
+/-- the outcome of `==`: the comparison walks the pairs and stops at the first unequal one
+(`False`); when it meets an entry whose value cannot be read before any unequal pair, KeyError -/
+def eqOut (m : ODict) (E : Externals) (cfg : Cfg) (ordered : Bool) (other : List (PyVal × PyVal)) : Out :=
+  if missing m E cfg && eqB m E cfg ordered other then .exc "KeyError" else .bool (eqB m E cfg ordered other)
+
+/-- `index == other` -/
+def eqTo (m : ODict) (E : Externals) (cfg : Cfg) (ordered : Bool) (other : List (PyVal × PyVal)) :
+    ODict × Out := (m, eqOut m E cfg ordered other)
+
+/-- `index != other`: `not (index == other)` — a KeyError of `==` propagates -/
+def neTo (m : ODict) (E : Externals) (cfg : Cfg) (ordered : Bool) (other : List (PyVal × PyVal)) :
+    ODict × Out :=
+  (m, match eqOut m E cfg ordered other with | .bool b => .bool (!b) | o => o)
+
+/-- a new handle on the same dictionary (pickle round trip, re-opening the directory, `copy` of
+the handle): the dictionary is the same, nothing is returned -/
+def rehandle (m : ODict) : ODict × Out := (m, .none)
+
 end OSpec
 
 /-! ### histories -/
@@ -173,6 +256,11 @@ inductive IOp where
   | iter (E : Externals) (asc : Bool)
   | clear
   | update (E : Externals) (now : Int) (kvs : List (PyVal × PyVal))
+  | items (E : Externals) (now : Int)
+  | values (E : Externals) (now : Int)
+  | eqTo (E : Externals) (now : Int) (ordered : Bool) (other : List (PyVal × PyVal))
+  | neTo (E : Externals) (now : Int) (ordered : Bool) (other : List (PyVal × PyVal))
+  | rehandle
 
 namespace Index
 
@@ -189,6 +277,11 @@ def step (x : Index) : IOp → Index × Out
   | .iter E asc => x.iter E asc
   | .clear => x.clear
   | .update E now kvs => x.update E now kvs
+  | .items E now => x.items E now
+  | .values E now => x.values E now
+  | .eqTo E now ordered other => x.eqTo E now ordered other
+  | .neTo E now ordered other => x.neTo E now ordered other
+  | .rehandle => x.rehandle
 
 /-- the state after a finite history -/
 def run (x : Index) (ops : List IOp) : Index := ops.foldl (fun x op => (x.step op).1) x
@@ -215,6 +308,11 @@ def step (m : ODict) (cfg : Cfg) : IOp → ODict × Out
   | .iter E asc => iter m E cfg asc
   | .clear => clear m
   | .update E _ kvs => update m E cfg kvs
+  | .items E _ => items m E cfg
+  | .values E _ => values m E cfg
+  | .eqTo E _ ordered other => eqTo m E cfg ordered other
+  | .neTo E _ ordered other => neTo m E cfg ordered other
+  | .rehandle => rehandle m
 
 /-- the dictionary after a history -/
 def run (m : ODict) (cfg : Cfg) (ops : List IOp) : ODict := ops.foldl (fun m op => (step m cfg op).1) m
